@@ -8,7 +8,21 @@ for tc in tree.iter('testcase'):
     name = '%s::%s' % (tc.get('classname'), tc.get('name'))
     ok = not any(ch.tag in ('failure', 'error', 'skipped') for ch in tc)
     res[name] = ok
-missing = [t for t in base['stable_pass'] if not res.get(t, False)]
+import re
+
+
+def norm(name):
+    # tests/factory/test_factories.py numbers its parametrised cases in the
+    # iteration order of a set of classes, so 'test_input16' is another number
+    # in another process; compare those cases by their class/factory suffix
+    return re.sub(r'test_input\d+-', 'test_inputN-', name)
+
+
+nres = {}
+for k, v in res.items():
+    nres[norm(k)] = nres.get(norm(k), False) or v
+missing = [t for t in base['stable_pass']
+           if not res.get(t, False) and not nres.get(norm(t), False)]
 print('stable_pass: %d, passing now: %d' % (len(base['stable_pass']), len(base['stable_pass']) - len(missing)))
 for m in missing:
     print('NOT PASSING:', m, res.get(m))
